@@ -166,7 +166,27 @@ pub(crate) fn handle_submit(
                         }
                     }
                 }
-                JobTaskDescription::Graph { .. } => {}
+                JobTaskDescription::Graph { tasks, .. } => {
+                    // A dependency on a task that has already failed or was canceled can never
+                    // be satisfied (the core does not know the task any more and would start
+                    // the new task right away)
+                    for task in tasks.iter() {
+                        for dep_id in &task.task_deps {
+                            if job.tasks.get(dep_id).is_some_and(|t| {
+                                matches!(
+                                    t.state,
+                                    JobTaskState::Failed { .. }
+                                        | JobTaskState::Canceled { .. }
+                                        | JobTaskState::Aborted { .. }
+                                )
+                            }) {
+                                return ToClientMessage::SubmitResponse(
+                                    SubmitResponse::InvalidDependencies(*dep_id),
+                                );
+                            }
+                        }
+                    }
+                }
             }
         } else {
             return ToClientMessage::SubmitResponse(SubmitResponse::JobNotFound);
